@@ -44,9 +44,43 @@ func genRaceTimerPlan(t *rapid.T) *Plan {
 	return p
 }
 
+// genRaceLateCheckPlan: a follower whose watch channel was closed by the store runs its one-off check of the
+// key on a goroutine of its own; that check's Get is slow, the follower is stopped meanwhile (every goroutine
+// the stop call waits for ends), the leader has deleted the key by the time the Get is applied - and the check
+// goes on to start an acquisition round for a run whose stop call has long finished waiting. Whatever that
+// round touches (the run's WaitGroup, say) must be ordered with the stop call. Lean.
+func genRaceLateCheckPlan(t *rapid.T) *Plan {
+	h := rapid.SampledFrom([]time.Duration{100 * time.Millisecond, 200 * time.Millisecond}).Draw(t, "H")
+	p := &Plan{Profile: "race/late-check", H: h, TTL: 3 * h, NoQuiesce: true, Lean: true}
+	d := time.Duration(rapid.Int64Range(int64(5*time.Millisecond), int64(60*time.Millisecond)).Draw(t, "get_lat"))
+	tC := odd(2*h + time.Duration(rapid.Int64Range(0, int64(h)).Draw(t, "t_close")))
+	f := Inst{ID: "F", Group: "g", Lat: []time.Duration{1, 3}, Takeover: rapid.Bool().Draw(t, "takeover")}
+	if f.Takeover {
+		f.Priority = 1
+	}
+	// every Get of F from the close on is slow (the periodic ones before it are not: they are numbered)
+	for n := 0; n < 40; n++ {
+		f.Rules = append(f.Rules, OpRule{Kind: OpGet, N: n, SetLat: true, ReqLat: d, RespLat: 1})
+	}
+	p.Instances = []Inst{{ID: "L", Group: "g", Priority: f.Priority, Lat: []time.Duration{1, 3}}, f}
+	p.Timeline = []Action{{At: 1, Kind: ActStart, Inst: 0}, {At: odd(h / 3), Kind: ActStart, Inst: 1},
+		{At: tC, Kind: ActCloseWatch, Inst: 1},
+		{At: tC + odd(d/3), Kind: ActStopCtx, Inst: 0, DeleteKey: true},
+		{At: tC + odd(d/2), Kind: rapid.SampledFrom([]string{ActStop, ActStopCtx}).Draw(t, "stop_kind"), Inst: 1}}
+	if rapid.Bool().Draw(t, "restart") {
+		p.Timeline = append(p.Timeline, Action{At: tC + odd(d/2) + 2, Kind: ActStart, Inst: 1}, Action{At: tC + odd(d) + odd(h), Kind: ActStop, Inst: 1})
+	}
+	p.Horizon = tC + 4*h + time.Second
+	sortTimeline(p)
+	return p
+}
+
 func genRacePlan(t *rapid.T) *Plan {
-	if rapid.IntRange(0, 5).Draw(t, "timer_shape") == 0 {
+	switch rapid.IntRange(0, 7).Draw(t, "timer_shape") {
+	case 0:
 		return genRaceTimerPlan(t)
+	case 1:
+		return genRaceLateCheckPlan(t)
 	}
 	p := GenPlan(t, "race", knobsRace)
 	p.NoQuiesce = true
